@@ -209,24 +209,21 @@ Theorem C17_start_method_priority : forall env arg dflt,
 Proof. intros. split; [apply src_mp_context_eq | apply mp_context_priority]. Qed.
 Print Assumptions C17_start_method_priority.
 
-(* THE SETTINGS OF AN OBJECT ARE CONSTANT OVER ITS LIFE.  For every history of __enter__ / successful calls / failed calls /
-   __exit__ on one Parallel object: every configure the backend receives carries the record resolved by Parallel.__init__ --
-   for the backends whose abort_everything passes **self.parallel._backend_kwargs on, which (regenerated) PoolManagerMixin
-   (threading, multiprocessing) does. *)
-Theorem C17_object_settings_constant : forall ops r,
-  pool_abort_passes_kwargs = true /\
-  Forall (fun c => c = CFull r) (o_calls (orun pool_abort_passes_kwargs ops (new_obj r))).
-Proof. intros. split; [reflexivity | exact (object_settings_constant ops r)]. Qed.
+(* THE SETTINGS OF AN OBJECT ARE CONSTANT OVER ITS LIFE.  For every backend class and every history of __enter__ / successful
+   calls / failed calls / __exit__ on one Parallel object: every configure the backend receives carries the record resolved by
+   Parallel.__init__.  [abort_passes k] is the REGENERATED fact that the abort_everything of class k (LokyBackend's own,
+   PoolManagerMixin's for threading / multiprocessing) reconfigures with **self.parallel._backend_kwargs.
+   (F46 -- LokyBackend.abort_everything dropping them -- was found by this statement and is fixed in /repo: 6b80fa0.) *)
+Theorem C17_object_settings_constant : forall k ops r,
+  abort_passes k = true /\ Forall (fun c => c = CFull r) (o_calls (orun (abort_passes k) ops (new_obj r))).
+Proof. exact object_settings_constant_all. Qed.
 Print Assumptions C17_object_settings_constant.
 
-(* full statement "for every backend" is FALSE of the code (F46): LokyBackend.abort_everything reconfigures with
-   configure(n_jobs=..., parallel=...) only, so after a failed call inside `with Parallel(...) as p:` the loky backend has lost
-   max_nbytes / temp_folder / mmap_mode / context / idle_worker_timeout for the rest of the block. *)
-Theorem C17_object_settings_loky_refuted : forall r,
-  loky_abort_passes_kwargs = false /\
-  o_calls (orun loky_abort_passes_kwargs [OEnter; OCallOk; OCallFail; OCallOk] (new_obj r)) = [CFull r; CBare (r_njobs r)].
-Proof. intros. split; [reflexivity | exact (object_settings_lost r)]. Qed.
-Print Assumptions C17_object_settings_loky_refuted.
+(* the hypothesis matters: a backend whose abort_everything does not pass them on is reconfigured bare after a failed call *)
+Theorem C17_object_settings_need_kwargs : forall r,
+  o_calls (orun false [OEnter; OCallOk; OCallFail; OCallOk] (new_obj r)) = [CFull r; CBare (r_njobs r)].
+Proof. exact object_settings_lost. Qed.
+Print Assumptions C17_object_settings_need_kwargs.
 
 (* non-vacuity: a depth-3 nesting with an exception, observed inside and after; the hypotheses of C17_priority hold
    in a state with three enclosing blocks and the resolution picks arguments from three different levels *)
